@@ -18,6 +18,23 @@ def run_verus(path, rlimit=None, seed=None, timeout=900, extra=()):
     if seed is not None:
         cmd += ["--smt-option", "smt.random_seed=%d" % seed]
     cmd += list(extra)
+    # development aid (tools/seedpar, tools/sweep): with VERIF_VCACHE=<dir> the verifier's answer for a byte-identical
+    # generated file and identical arguments is reused; the registered check commands never set it
+    cdir = os.environ.get("VERIF_VCACHE")
+    ckey = None
+    if cdir:
+        import hashlib
+        with open(path, "rb") as fh:
+            ckey = hashlib.sha256(fh.read() + b"\0" + "\0".join(cmd[1:]).replace(os.path.basename(path), "F").encode()).hexdigest()
+        cf = os.path.join(cdir, ckey + ".json")
+        if os.path.exists(cf):
+            try:
+                with open(cf) as fh:
+                    d = json.load(fh)
+                bn = os.path.basename(path)
+                return cmd, d["out"].replace(d["bn"], bn), d["err"].replace(d["bn"], bn), d["rc"], d["wall"]
+            except Exception:
+                pass
     t0 = time.time()
     try:
         p = subprocess.run(cmd, cwd=os.path.dirname(path), capture_output=True, text=True,
@@ -28,6 +45,15 @@ def run_verus(path, rlimit=None, seed=None, timeout=900, extra=()):
         err = e.stderr.decode() if e.stderr else ""
         rc = -9
     wall = time.time() - t0
+    if cdir and ckey and rc != -9:
+        try:
+            os.makedirs(cdir, exist_ok=True)
+            tmp = os.path.join(cdir, "%s.%d.tmp" % (ckey, os.getpid()))
+            with open(tmp, "w") as fh:
+                json.dump({"out": out, "err": err, "rc": rc, "wall": wall, "bn": os.path.basename(path)}, fh)
+            os.replace(tmp, os.path.join(cdir, ckey + ".json"))
+        except Exception:
+            pass
     return cmd, out, err, rc, wall
 
 
